@@ -95,6 +95,24 @@ def gen_cases(rng, n):
                 vs = sorted(set(vars_of(phi)))
                 subs = ["t9 = " + to_text(q1, S), "t9 = ( t9 ) %s ( %s )" % (KW[both["op"]], to_text(q2, S))] + subs
                 main = "( t9 ) %s ( %s )" % (KW[opx], main)
+        elif r_shape < 0.42 and not bconsts:
+            # a sub-specification that carries the name of the input signal it reads: later references mean the sub-specification
+            v0 = rng.choice(["x", "y"])
+            g1 = Gen(rng, vars_=(v0,), S=S, ops=g.ops, ivs=g.ivs, bool_atoms=False)
+            q1 = g1.formula(rng.choice([0, 1, 1, 2]))
+            others = [v_ for v_ in ("x", "y") if v_ != v0]
+            g2 = Gen(rng, vars_=tuple(others), S=S, ops=g.ops, ivs=g.ivs, bool_atoms=False)
+            q2 = g2.formula(rng.choice([0, 1]))
+            if vars_of(q1) == [v0] and v0 not in vars_of(q2) and not (kind == "past" and _c03.past_over_future(bi("and", q1, q2))) \
+                    and not (kind == "past" and not (ops_of(q1) | ops_of(q2)) & FUT):
+                opx = rng.choice(["and", "or", "implies"])
+                phi = bi(opx, q1, q2)
+                phi_m = strip_spelling(phi)
+                vs = sorted(set(vars_of(phi)))
+                subs = ["%s = %s" % (v0, to_text(q1, S))]
+                main = "( %s ) %s ( %s )" % (v0, KW[opx], to_text(q2, S))
+                named = []
+                cdecl = []
         style = rng.choice(["add_sub_spec", "one_text"])
         declare_names = rng.random() < 0.5
         o1 = dt_obj(phi_m, S, vs, consts=cdecl)
